@@ -421,23 +421,48 @@ def spec_checks(geom, impl, exact=False):
 
 
 def reverse_checks(geom, impl, impl_rev):
-    """inc_* at k of the path == out_* at n-1-k of path.reverse() (rays reversed: [i, j] <-> [j, i])"""
+    """inc_* at k of the path == out_* at n-1-k of path.reverse() (rays reversed: [i, j] <-> [j, i]);
+    same relation as for the model: lengths within TOL of the leg, angles within the conditioning of
+    arccos / arctan2, azimuth modulo 2 pi, sign of the signed angle unless phi is within 1e-9 of +-pi/2"""
     fails = []
     nif = len(geom["interfaces"])
     for a in range(nif):
+        got = {}
+        kinds_ok = True
         for nm in ("cart", "radius", "polar", "az", "signed", "conv", "angle"):
             k1, v1 = impl[(M_INC[nm], a)]
             k2, v2 = impl_rev[(M_OUT[nm], nif - 1 - a)]
-            same = k1 == k2
-            if same and k1 == "val":
-                v2t = np.swapaxes(v2, 0, 1)
-                scale = max(1e-300, float(np.nanmax(np.abs(v1)))) if v1.size else 1.0
-                d = np.abs(v1 - v2t)
-                same = bool(np.all((d <= 1e-13 * scale) | (np.isnan(v1) & np.isnan(v2t))))
-            if not same:
+            if k1 != k2:
+                kinds_ok = False
+                fails.append(("spec:inc_is_out_of_reverse",
+                              f"{METHODS[M_INC[nm]]}({a}) is {k1} but {METHODS[M_OUT[nm]]}({nif - 1 - a}) of path.reverse() is {k2}",
+                              dict(interface=a, kinds=[k1, k2])))
+            elif k1 == "val":
+                got[nm] = (v1, np.swapaxes(v2, 0, 1))
+        if not kinds_ok or "cart" not in got:
+            continue
+        r = got["radius"][0][..., 0]
+        with np.errstate(all="ignore"):
+            sin_t = np.nan_to_num(np.sin(got["polar"][0][..., 0]), nan=1.0)
+        atol = angle_tol(np.abs(sin_t))
+        for nm, (v1, v2) in got.items():
+            nan2 = np.isnan(v1) & np.isnan(v2)
+            d = np.abs(v1 - v2)
+            if nm in ("cart", "radius"):
+                ok = (d <= (TOL * r)[..., None]) | nan2
+            elif nm == "az":
+                ok = (np.minimum(d, np.abs(2 * PI - d)) <= atol[..., None]) | nan2
+            elif nm == "signed":
+                az = got["az"][0][..., 0]
+                decided = (np.minimum(np.abs(az - PI / 2), np.abs(az + PI / 2)) >= 1e-9)[..., None]
+                ok = ((np.abs(np.abs(v1) - np.abs(v2)) <= atol[..., None]) & (~decided | (d <= atol[..., None]))) | nan2
+            else:
+                ok = (d <= atol[..., None]) | nan2
+            if not np.all(ok):
+                t = tuple(np.argwhere(~ok)[0][:2])
                 fails.append(("spec:inc_is_out_of_reverse",
                               f"{METHODS[M_INC[nm]]}({a}) differs from {METHODS[M_OUT[nm]]}({nif - 1 - a}) of path.reverse()",
-                              dict(interface=a, kinds=[k1, k2], inc=v1, out_of_reverse=v2)))
+                              dict(interface=a, ray=list(t), inc=v1[t], out_of_reverse=v2[t])))
     return fails
 
 
@@ -567,8 +592,10 @@ def run_batch(geoms, with_reverse=True):
                            dict(want=want_flags, got=got_flags)))
             want_int = np.swapaxes(np.asarray(gm["interior"]), 1, 2)[::-1]
             if not np.array_equal(np.asarray(rgeom["interior"]), want_int):
-                sf.append(("spec:reverse_rays", "Rays.reverse: indices[k, i, j] of the path is not indices[d-1-k, j, i] of the reversed rays", {}))
-            sf += [(k + ":reversed", "on path.reverse(): " + w, d) for k, w, d in spec_checks(rgeom, impl_rev, exact=exact)]
+                sf.append(("spec:reverse_rays", "Rays.reverse: indices[k, i, j] of the path is not indices[d-1-k, j, i] of the reversed rays",
+                           dict(want=want_int, got=np.asarray(rgeom["interior"]))))
+            else:
+                sf += [(k + ":reversed", "on path.reverse(): " + w, d) for k, w, d in spec_checks(rgeom, impl_rev, exact=exact)]
             mf += model_compare(rgeom, impl_rev, model_rev, exact=exact, tag="path.reverse(): ")
             evaluations += 17 * (2 * nif + 2) * n * m
         report(gm, sf, mf)
@@ -607,7 +634,7 @@ samples.append({"corpus": [gm["family"] for gm, _ in corpus]})
 # ---------------------------------------------------------------------------
 # 1. random 3-D geometries, arbitrary orthonormal frames
 # ---------------------------------------------------------------------------
-NRANDOM = 260 if Q else 6000
+NRANDOM = 500 if Q else 8000
 batch = []
 for t in range(NRANDOM):
     gm = random_geometry(rng)
@@ -625,7 +652,7 @@ samples.append({"random": "2..5 interfaces, 1..6 points each, positions uniform 
 # ---------------------------------------------------------------------------
 # 2. dyadic boundary family: phi exactly on the axes / diagonals, exact arithmetic
 # ---------------------------------------------------------------------------
-NBOUND = 120 if Q else 2500
+NBOUND = 250 if Q else 3000
 batch = [boundary_geometry(rng) for _ in range(NBOUND)]
 for s in range(0, len(batch), 200):
     run_batch(batch[s:s + 200])
@@ -633,9 +660,49 @@ samples.append({"boundary": "signed-permutation frames, dyadic points, legs alon
                             "quadruples: sizes/cartesian/radius compared bit for bit, sign decided exactly on phi = 0, +-pi/2, pi"})
 
 # ---------------------------------------------------------------------------
+# 2b. legs nearly along the local axes: theta close to 0, pi/2, pi; phi close to 0, +-pi/2, pi
+# ---------------------------------------------------------------------------
+def near_axis_geometry(rng):
+    nif = int(rng.integers(2, 5))
+    scale = float(10 ** rng.uniform(-3, 0))
+    ifs = [dict(points=rng.uniform(-1, 1, (1, 3)) * scale, frames=random_frame(rng)[None], inc=random_flag(rng, 0.05),
+                out=random_flag(rng, 0.05))]
+    for k in range(1, nif):
+        npts = int(rng.integers(1, 4))
+        frames = np.stack([random_frame(rng) for _ in range(npts)])
+        prev = ifs[-1]["points"][0]
+        pts = np.zeros((npts, 3))
+        for p in range(npts):
+            # direction (towards the previous point) in the local frame of this point
+            ax = int(rng.integers(0, 3))
+            d = np.zeros(3)
+            d[ax] = float(rng.choice([-1.0, 1.0]))
+            eps = float(10 ** rng.uniform(-10, -2))
+            if rng.random() < 0.5:
+                # in the plane x = 0 plus a tiny x: phi close to +-pi/2
+                d = np.array([eps * float(rng.choice([-1.0, 1.0])), float(rng.choice([-1.0, 1.0])), float(rng.uniform(-1, 1))])
+            else:
+                d = d + eps * rng.uniform(-1, 1, 3)
+            length = scale * float(rng.uniform(0.1, 2.0))
+            leg_gcs = frames[p].T @ (d / np.linalg.norm(d) * length)      # local -> global (rows = axes)
+            pts[p] = prev - leg_gcs
+        ifs.append(dict(points=pts, frames=frames, inc=random_flag(rng, 0.05), out=random_flag(rng, 0.05)))
+    n, m = 1, len(ifs[-1]["points"])
+    interior = np.stack([rng.integers(0, len(ifs[k]["points"]), (n, m)) * int(rng.random() < 0.3) for k in range(1, nif - 1)]) \
+        if nif > 2 else np.zeros((0, n, m), int)
+    return dict(interfaces=ifs, interior=interior, vels=[float(rng.uniform(900, 7000)) for _ in range(nif - 1)], family="near-axis")
+
+
+NNEAR = 250 if Q else 3000
+batch = [near_axis_geometry(rng) for _ in range(NNEAR)]
+for s in range(0, len(batch), 200):
+    run_batch(batch[s:s + 200])
+samples.append({"near-axis": "incoming legs within 1e-10..1e-2 of a local axis / of the plane x = 0 (theta near 0, pi/2, pi; phi near 0, +-pi/2, pi)"})
+
+# ---------------------------------------------------------------------------
 # 3. Snell-exact tilted geometries with analytic angles (also rigidly rotated in 3-D)
 # ---------------------------------------------------------------------------
-NSNELL = 60 if Q else 1200
+NSNELL = 120 if Q else 1500
 snell_done = 0
 attempts = 0
 batch, expect = [], []
@@ -695,7 +762,7 @@ samples.append({"snell": f"{snell_done} analytic single-ray geometries with tilt
 # ---------------------------------------------------------------------------
 # 4. rays traced by arim: sum of leg / velocity == rays.times
 # ---------------------------------------------------------------------------
-NIMM = 6 if Q else 60
+NIMM = 8 if Q else 50
 nt = 0
 for s_i in range(NIMM):
     setup = arimgen.immersion_setup(rng, max_refl=int(rng.integers(0, 3)), wall_points=int(rng.integers(30, 120)))
@@ -717,6 +784,79 @@ for s_i in range(NIMM):
                           dict(path=name, velocities=list(path.velocities), sum_of_legs=acc, times=times,
                                geometry=geom_replay(gm) if times.size <= 12 else "immersion set-up (too large to inline); seed and tier replay it"))
 samples.append({"immersion": f"{NIMM} set-ups, {nt} traced rays: sum leg/velocity == rays.times"})
+
+# ---------------------------------------------------------------------------
+# 5. the extracted driver against the same terms evaluated by vm_compute inside coqc (binary64
+#    primitive floats; libm-free observables bit for bit, outcome kinds of the others)
+# ---------------------------------------------------------------------------
+COQ_IMPORTS = """From Coq Require Import ZArith List Bool PrimFloat.
+From Arim Require Import Base.Num Base.NumF Base.ListX Model.Vec3 Model.RayGeom.
+Import ListNotations.
+Definition feq (a b : float) : bool := PrimFloat.eqb a b || (negb (PrimFloat.eqb a a) && negb (PrimFloat.eqb b b)).
+Definition enc {A} (conv : A -> list float) (r : res A) : Z * list float :=
+  match r with Val a => (0%Z, conv a) | NoLeg => (1%Z, []) | IndexErr => (2%Z, []) | ValueErr => (3%Z, []) end.
+Definition c1 (x : float) : list float := [x].
+Definition c3 (v : vec3 float) : list float := [vx v; vy v; vz v].
+Definition c0 (x : float) : list float := [].
+Definition same (a b : Z * list float) : bool := Z.eqb (fst a) (fst b) && list_eqb feq (snd a) (snd b).
+Definition v3_of (l : list float) : vec3 float := (nth 0 l zero, nth 1 l zero, nth 2 l zero).
+Definition mk_iface (x : list (list float) * option bool * option bool) : iface (T:=float) :=
+  let '(rows, fi, fo) := x in
+  mkIface (map (fun r => v3_of r) rows)
+          (map (fun r => (v3_of (skipn 3 r), v3_of (skipn 6 r), v3_of (skipn 9 r))) rows) fi fo.
+Definition natl (l : list Z) : list nat := map Z.to_nat l.
+(* case: interfaces, (n, m), interior index arrays, (i, j), first index, expected answers per index *)
+Definition check_case (c : list (list (list float) * option bool * option bool) * (Z * Z) * list (list (list Z))
+                           * (Z * Z) * Z * list (list (Z * list float))) : bool :=
+  let '(ifl, nm, interior, ij, idx0, expected) := c in
+  let ifs := map mk_iface ifl in
+  match ray_column (make_indices (Z.to_nat (fst nm)) (Z.to_nat (snd nm)) (map (map natl) interior))
+                   (Z.to_nat (fst ij)) (Z.to_nat (snd ij)) with
+  | None => false
+  | Some ray =>
+      let answers (idx : Z) : list (Z * list float) :=
+        [ enc c3 (leg_points ifs ray idx); enc c1 (inc_leg_size NumF ifs ray idx);
+          enc c3 (inc_leg_cartesian NumF ifs ray idx); enc c1 (inc_leg_radius NumF ifs ray idx);
+          enc c3 (out_leg_cartesian NumF ifs ray idx); enc c1 (out_leg_radius NumF ifs ray idx);
+          enc c0 (inc_leg_polar NumF ifs ray idx); enc c0 (signed_inc_angle NumF ifs ray idx);
+          enc c0 (conventional_inc_angle NumF ifs ray idx); enc c0 (out_leg_azimuth NumF ifs ray idx);
+          enc c0 (signed_out_angle NumF ifs ray idx); enc c0 (conventional_out_angle NumF ifs ray idx) ] in
+      list_eqb (list_eqb same) (map (fun k => answers (idx0 + Z.of_nat k)%Z) (seq 0 (length expected))) expected
+  end.
+"""
+from common import cZ, cfloat, clist, cbool, copt
+VM_METHODS = [(0, True), (2, True), (3, True), (4, True), (10, True), (11, True),
+              (5, False), (8, False), (9, False), (13, False), (15, False), (16, False)]
+KCODE = {"val": 0, "N": 1, "I": 2, "V": 3}
+vm_geoms = [boundary_geometry(rng, nif=int(rng.integers(2, 5))) for _ in range(20 if Q else 60)] + \
+           [random_geometry(rng, nif=int(rng.integers(2, 5)), maxpts=3) for _ in range(20 if Q else 60)]
+vm_outs = drv.run([driver_line(gm) for gm in vm_geoms])
+lits = []
+for gm, out in zip(vm_geoms, vm_outs):
+    nif = len(gm["interfaces"])
+    n, m = len(gm["interfaces"][0]["points"]), len(gm["interfaces"][-1]["points"])
+    table, _ = parse_driver(out, nif, n, m)
+    i, j = int(rng.integers(0, n)), int(rng.integers(0, m))
+    exp = []
+    for idx in range(-nif - 1, nif + 1):
+        row = []
+        for k, with_values in VM_METHODS:
+            kind, v = table[(k, idx)]
+            vals = list(v[i, j]) if (kind == "val" and with_values) else []
+            row.append(f"({cZ(KCODE[kind])}, {clist(vals, cfloat)})")
+        exp.append(clist(row))
+    ifl = clist([f"({clist([clist(list(p) + list(np.asarray(B).ravel()), cfloat) for p, B in zip(f['points'], f['frames'])])}, "
+                 f"{copt(f['inc'], cbool)}, {copt(f['out'], cbool)})" for f in gm["interfaces"]])
+    interior_l = clist([clist([clist(list(r), cZ) for r in lay]) for lay in np.asarray(gm["interior"])])
+    lits.append(f"({ifl}, ({cZ(n)}, {cZ(m)}), {interior_l}, ({cZ(i)}, {cZ(j)}), {cZ(-nif - 1)}, {clist(exp)})")
+bad_vm = chk.coq_failing("rg_vm", COQ_IMPORTS, "list (list (list float) * option bool * option bool) * (Z * Z) * list (list (list Z)) * (Z * Z) * Z * list (list (Z * list float))",
+                         lits, "check_case", shard=10, jobs=8)
+evaluations += len(lits) * 12
+for b in bad_vm[:3]:
+    chk.violation("extraction-vs-vm_compute", "the extracted OCaml driver and vm_compute (binary64 primitive floats) disagree on the ray-geometry model",
+                  dict(geometry=geom_replay(vm_geoms[b]), correspondence="extracted Model.RayGeom (OCaml) vs the same terms under vm_compute on NumF",
+                       theorem_or_correspondence="Extract/C05.v + ocaml/C05/driver.ml"), failing_input_found=False)
+samples.append({"vm_compute": f"{len(lits)} (geometry, ray) cases: leg_points / sizes / cartesian legs / radii bit for bit, outcome kinds of the angle methods, for every index -n-1..n"})
 
 chk.cov["ambiguous_sign_cases_excluded"] = ambiguous
 chk.cov.update(stats)
